@@ -23,9 +23,10 @@ Proof. exact run_ok. Qed.
 Print Assumptions C03_model_ok.
 
 (* what the oracle's verdict means, step by step: every reply satisfies ReplyP against the summary
-   of its writer (base: everything below it DECLARED; bits and NACKFRAG subjects: not RECORDED), the
-   lowest number of an effective HEARTBEAT's range that is not recorded is requested, a submessage
-   adds at most its own sample to the cache *)
+   of its writer (base: everything below it DECLARED; bits and NACKFRAG subjects: not RECORDED), if
+   an effective HEARTBEAT's range contains a number that is not DECLARED then some number between the
+   lowest not-RECORDED and the lowest not-DECLARED one is requested ([LowestReqP]), a submessage adds
+   at most its own sample to the cache *)
 Theorem C03_oracle_sound : forall S o so S', step_ok S o so = Some S' -> StepP S o so S'.
 Proof. exact step_ok_sound. Qed.
 Print Assumptions C03_oracle_sound.
@@ -85,17 +86,73 @@ Theorem C03_bits_missing : forall c i o so s s1, wf_case c = true -> summary_at 
 Proof. exact bits_missing. Qed.
 Print Assumptions C03_bits_missing.
 
-(* after an effective HEARTBEAT whose range contains a missing (= not recorded) number, the lowest
-   one is requested by the ACKNACK's bitmap or is the subject of a NACKFRAG of the same reply; windows
-   wider than 256 are inside the quantifier *)
+(* "Whenever the advertised range contains a missing sample, the lowest one is requested": after an
+   effective HEARTBEAT(first, last) whose range contains a number that is not DECLARED (m1 = the
+   lowest such number at or above max(first, 1)), some number r between m0 — the lowest number at or
+   above max(first, 1) that is not RECORDED — and m1 is requested: a set bit of the ACKNACK or the
+   subject of a NACKFRAG of the same reply; m0 <= m1 always.  Windows wider than 256 are inside the
+   quantifier.  Which r depends on how much of a GAP range that started above its ack base the
+   reader remembers (the code as it is: r = m0, see C03_lowest_unrecorded_requested; a reader that
+   remembers everything it was told: r = m1); r is in any case not RECORDED (C03_bits_missing,
+   C03_nackfrag_sound), and no reader may skip beyond m1. *)
 Theorem C03_lowest_requested : forall c i w first last count final so s s1, wf_case c = true ->
+  summary_at c i (Hb w first last count final) so s s1 ->
+  effective_hb s (Hb w first last count final) = true ->
+  forall m0 m1, Z.max first 1 <= m1 <= last -> known s1 m1 = false ->
+    (forall m, Z.max first 1 <= m < m1 -> known s1 m = true) ->
+    Z.max first 1 <= m0 -> recorded s1 m0 = false ->
+    (forall m, Z.max first 1 <= m < m0 -> recorded s1 m = true) ->
+    m0 <= m1 /\ exists r, m0 <= r <= m1 /\ requested r (so_replies so) = true.
+Proof. exact lowest_requested. Qed.
+Print Assumptions C03_lowest_requested.
+
+(* ... and when RECORDED and DECLARED agree below m1 (no GAP of the history was cut there; in
+   particular in every history without a GAP that started above the ack base and reached beyond
+   ack base + 256) the lowest not-DECLARED number of the range itself is requested *)
+Theorem C03_lowest_requested_exact : forall c i w first last count final so s s1, wf_case c = true ->
+  summary_at c i (Hb w first last count final) so s s1 ->
+  effective_hb s (Hb w first last count final) = true ->
+  forall m1, Z.max first 1 <= m1 <= last -> known s1 m1 = false ->
+    (forall m, Z.max first 1 <= m < m1 -> known s1 m = true) ->
+    (forall m, Z.max first 1 <= m < m1 -> recorded s1 m = known s1 m) ->
+    requested m1 (so_replies so) = true.
+Proof. exact lowest_requested_exact. Qed.
+Print Assumptions C03_lowest_requested_exact.
+
+(* the oracle's clause is that statement (for every summary and reply list) ... *)
+Theorem C03_lowest_requested_clause : forall s w first last count final rs,
+  lowest_requested_ok s (Hb w first last count final) rs = true ->
+  forall m0 m1, Z.max first 1 <= m1 <= last -> known s m1 = false ->
+    (forall m, Z.max first 1 <= m < m1 -> known s m = true) ->
+    Z.max first 1 <= m0 -> recorded s m0 = false ->
+    (forall m, Z.max first 1 <= m < m0 -> recorded s m = true) ->
+    m0 <= m1 /\ exists r, m0 <= r <= m1 /\ requested r rs = true.
+Proof. exact lowest_requested_ok_spec. Qed.
+Print Assumptions C03_lowest_requested_clause.
+
+(* ... and where RECORDED and DECLARED agree on the advertised range it is the exact clause "the lowest
+   not-DECLARED number of the range is requested" *)
+Theorem C03_lowest_requested_exact_when_no_cut : forall s w first last count final rs,
+  (forall m, Z.max first 1 <= m <= last -> recorded s m = known s m) ->
+  lowest_requested_ok s (Hb w first last count final) rs
+  = match lowest_unknown s (Z.max first 1) with
+    | Some m1 => if m1 <=? last then requested m1 rs else true
+    | None => false
+    end.
+Proof. exact lowest_requested_exact_when_no_cut. Qed.
+Print Assumptions C03_lowest_requested_exact_when_no_cut.
+
+(* the model gives more than the oracle asks: it requests m0 itself, the lowest number of the range
+   that is not RECORDED (= the reader's ack base), also when that number was declared in the far
+   part of a GAP the reader cut — the code as it is asks again for what it forgot *)
+Theorem C03_lowest_unrecorded_requested : forall c i w first last count final so s s1, wf_case c = true ->
   summary_at c i (Hb w first last count final) so s s1 ->
   effective_hb s (Hb w first last count final) = true ->
   forall m0, Z.max first 1 <= m0 <= last -> recorded s1 m0 = false ->
     (forall m, Z.max first 1 <= m < m0 -> recorded s1 m = true) ->
     requested m0 (so_replies so) = true.
-Proof. exact lowest_requested. Qed.
-Print Assumptions C03_lowest_requested.
+Proof. exact lowest_unrecorded_requested. Qed.
+Print Assumptions C03_lowest_unrecorded_requested.
 
 (* a NACKFRAG names a missing (not recorded) sample of the advertised range of which a DATAFRAG was seen, its
    set is non-empty, starts at its base and spans at most 256 fragment numbers ... *)
@@ -153,6 +210,22 @@ Example C03_gap_window_example :
   /\ option_map (fun s => (recorded s 300, recorded s 999, recorded s 1000, s_base s)) (gw_summary 8)
      = Some (true, true, false, 1000).
 Proof. exact gap_window_example. Qed.
+
+(* the tolerance made visible (Theorems.v, tolerance_example): GAP [5,1000) at ack base 1, DATA 1..4,
+   HEARTBEAT(1..1200); m0 = 257, m1 = 1000.  The model requests 257..512; observations of readers that
+   request from 257, 513 or 1000 pass the oracle, one that has base 1000 and starts at 1001 fails; and
+   without a cut GAP, skipping the lowest missing number fails *)
+Example C03_tolerance_example :
+  option_map so_replies (nth_error (L tol_case) 5) = Some [AckNack 1 257 256 (iota 257 256) 0]
+  /\ ok tol_case (run tol_case) = true
+  /\ ok tol_case (tol_obs 257 256 (iota 257 256)) = true
+  /\ ok tol_case (tol_obs 513 256 (iota 513 256)) = true
+  /\ ok tol_case (tol_obs 1000 201 (iota 1000 201)) = true
+  /\ ok tol_case (tol_obs 1000 201 (iota 1001 200)) = false
+  /\ ok tol_case (tol_obs 257 256 (iota 258 255)) = true
+  /\ ok tol_case0 (ORun [tol_so [] 1 [AckNack 1 1 256 (iota 1 256) 0]]) = true
+  /\ ok tol_case0 (ORun [tol_so [] 1 [AckNack 1 1 256 (iota 2 255) 0]]) = false.
+Proof. exact tolerance_example. Qed.
 
 (* non-vacuity: the witness is well-formed, and its reply carries a NACKFRAG and an ACKNACK with a
    set bit *)
